@@ -332,6 +332,12 @@ void zzDivMod(word b[], const word divident[], const word a[],
 	wwCopy(v, mod, n);
 	nu = wwWordSize(u, n);
 	nv = n;
+	// a == 0 => \gcd(a, mod) != 1 => b <- 0
+	if (nu == 0)
+	{
+		wwSetZero(b, n);
+		return;
+	}
 	// итерации со следующими инвариантами:
 	//	da * a  =  divident * u \mod mod
 	//	da1 * a = -divident * v \mod mod
@@ -378,7 +384,8 @@ void zzDivMod(word b[], const word divident[], const word a[],
 	if (!wwIsW(u, nu, 1))
 		wwSetZero(b, n);
 	// здесь da * a == divident \mod mod
-	wwCopy(b, da, n);
+	else
+		wwCopy(b, da, n);
 	// очистка
 	nu = nv = 0;
 }
